@@ -157,6 +157,13 @@ def _impl(tier, seed, search):
             if ok and len(r) == 2:
                 for k_, Tk_ in enumerate((Tm1_, Tm2_)):
                     L.close('Ad(T^-1)Ad(T)=I (sequence)', b.adjoint(r[k_]) @ b.adjoint(Tk_), np.eye(6), T9, max(1.0, geom.tmag(Tk_)) ** 2, dict(T=Tk_, k=k_), what='the adjoint of element k of SE3([...]).inv() is not the inverse of the adjoint of element k', sig='Ad(T^-1):sequence')
+        # a twist times a pose is the composition exp(S) T (in that order): value and adjoint
+        if i % 6 == 3:
+            St_ = np.r_[g.normal(size=3), inputs.unit_axis(g) * float(g.uniform(0.3, 1.5))]; Tt_ = inputs.se3(g, 1)
+            ok, r = L.noraise('Twist3*SE3', lambda: ((Twist3(St_) * SE3(Tt_, check=False)).A, (Twist3(St_) * SE3(Tt_, check=False)).Ad(), Twist3(St_).Ad() @ SE3(Tt_, check=False).Ad()), dict(S=St_, T=Tt_), 'Twist3 * SE3')
+            if ok:
+                L.close('Twist3*SE3 = exp(S) T', r[0], scipy.linalg.expm(b.skewa(St_)) @ Tt_, 1e-7, max(1.0, geom.tmag(r[0])), dict(S=St_, T=Tt_), what='Twist3 * SE3 is not exp(S) T', sig='Twist3*SE3')
+                L.close('Ad(S*T) = Ad(S) Ad(T)', r[1], r[2], 1e-7, max(1.0, float(np.max(np.abs(r[2])))), dict(S=St_, T=Tt_), sig='Twist3*SE3')
         # velocity Jacobian
         R1 = T1[:3, :3]; Z = np.zeros((3, 3))
         L.close('tr2jac', b.tr2jac(T1), np.block([[R1.T, Z], [Z, R1.T]]), 1e-12, 1.0, dict(T=T1))
